@@ -119,3 +119,13 @@ fn extract_modbus_role(cert: &rx509::x509::Certificate) -> Result<String, String
 
     Ok(role.to_string())
 }
+
+#[cfg(feature = "verif-hooks")]
+pub(crate) mod verif_role {
+    /// Run the production role extraction on a DER encoded certificate
+    pub fn extract_role_from_der(der: &[u8]) -> Result<String, String> {
+        let parsed =
+            rx509::x509::Certificate::parse(der).map_err(|err| format!("ASNError: {err}"))?;
+        super::extract_modbus_role(&parsed)
+    }
+}
